@@ -130,7 +130,8 @@ func c14Run(d *decl.Decl, text string) (b *decl.Built, err error, pan interface{
 		ferr := ip.Parse(strings.NewReader("[No Such Section]\nzz = 1\n"))
 		b.Parser.Options = want
 		if fe, ok := ferr.(*flags.Error); !ok || fe.Type != flags.ErrUnknownGroup {
-			return b, fmt.Errorf("harness: the earlier file with an unknown section was not rejected with ErrUnknownGroup: %v", ferr), nil, ""
+			c14ReuseFault = fmt.Sprintf("the earlier file names a section that does not exist, read without IgnoreUnknown: %v", ferr)
+			return b, nil, nil, ""
 		}
 	}
 	ip.ParseAsDefaults = c14AsDefaults
@@ -139,6 +140,7 @@ func c14Run(d *decl.Decl, text string) (b *decl.Built, err error, pan interface{
 }
 
 var c14Reused bool // per leaf: the IniParser has read (and rejected) another file before
+var c14ReuseFault string
 
 var c14AsDefaults bool // per leaf: the file is read in as-defaults mode (faults are faults all the same)
 
@@ -279,6 +281,11 @@ func init() {
 		b, err, pan, site := c14Run(d, text)
 		if pan != nil {
 			c.Fail("panic|"+site, map[string]interface{}{"panic": fmt.Sprint(pan)})
+			return
+		}
+		if c14ReuseFault != "" {
+			c.Fail("unknown-section-not-reported|IgnoreUnknown-was-not-set-when-the-file-was-read", c14ReuseFault)
+			c14ReuseFault = ""
 			return
 		}
 		// the model reads the LF-normalised text: line ends must not matter
